@@ -135,6 +135,27 @@ def extEqLoop (t1 t2 : IdxT) (a b : Ext) : List Nat → Except Err Bool
 def Ext.eq (t1 t2 : IdxT) (a b : Ext) : Except Err Bool :=
   if a.pat.length ≠ b.pat.length then .ok false else extEqLoop t1 t2 a b (List.range a.pat.length)
 
+/-- `detail::submdspan_extents_builder::next` for slice specifiers that are `full_extent` (`true`: the dimension is kept
+    with its static extent, `ext.extent(k)` is appended to the constructor arguments) or an index (`false`: the dimension is
+    dropped); after the fix of branch fix-c19b the static extents are appended in order.  Index-pair slices with run-time
+    bounds and `strided_slice` do not compile (constructor arity / `static_assert`) and are not modelled. -/
+def subLoop (t : IdxT) (e : Ext) : List Nat → List Bool → Pat → List Int → Except Err (Pat × List Int)
+  | k :: ks, keep :: rest, p, v =>
+    if keep then do
+      let se ← rd e.pat k
+      let x ← e.extent t k
+      subLoop t e ks rest (p ++ [se]) (v ++ [x])
+    else subLoop t e ks rest p v
+  | _, _, p, v => .ok (p, v)
+
+/-- `submdspan_extents(ext, slices...)`: `extents<IndexType, NewStaticExtents...>(newExts...)` with one value per kept
+    dimension (the `N == rank()` constructor); `sizeof...(slices) == rank()` is a `requires` clause -/
+def submdspanExtents (t : IdxT) (e : Ext) (keep : List Bool) : Except Err Ext :=
+  if keep.length ≠ e.pat.length then .error (.pre "arity")
+  else do
+    let (p, v) ← subLoop t e (List.range e.pat.length) keep [] []
+    Ext.ofVals t p v
+
 /-- the product loops: `result *= static_cast<size_t>(extent(e))` for `e` in the given list -/
 def prodLoop (t : IdxT) (e : Ext) : List Nat → Int → Except Err Int
   | [], acc => .ok acc
